@@ -99,7 +99,8 @@ static void imm_tok(struct instr *instr_buffer, char *imme) {
   instr_buffer->imm = true;
   int base = RADIX_10;
   imme = strtok_r(imme, " ", &saved_saved);
-  bool is_hex = imme[1] == 'x' || imme[2] == 'x';
+  // "0x.." or "-0x..": do not look past the end of a one-character token
+  bool is_hex = imme[1] == 'x' || (imme[1] != '\0' && imme[2] == 'x');
   if (is_hex)
     base = RADIX_16;
   // smart mode: only a hex literal padded to all 16 digits keeps 64 bits
